@@ -14,4 +14,15 @@ ReceiptOk(r) ==
   /\ r.class = "CommitFailure" => /\ r.touched \subseteq FeeTouch
                                   /\ r.events \subseteq FeeEvents
                                   /\ r.royalties = 0
+
+\* What makes a write (an event) survive a failure is the privilege to open a substate with FORCE_WRITE / UNMODIFIED_BASE
+\* (to emit an event with FORCE_WRITE).  Only the fungible vault has it (fee locking); for every other blueprint the
+\* system refuses the attempt - so nothing but the fee payment can be in a committed failure.
+\*   attempt = [kind "field" | "collection_entry" | "store_entry" | "event" | "owned_vault_lock_fee", flags <<..>>,
+\*              blueprint, result "ok" | error class]
+Privileged(a) == \E i \in DOMAIN a.flags : a.flags[i] \in {"FORCE_WRITE", "UNMODIFIED_BASE"}
+PrivilegedOpenOk(a) ==
+  IF Privileged(a) /\ a.blueprint # "FungibleVault"
+  THEN a.result = (IF a.kind = "event" THEN "ForceWriteEventFlagsNotAllowed" ELSE "InvalidLockFlags")
+  ELSE a.result = "ok"
 =============================================================================
